@@ -5,6 +5,7 @@ package argmapper
 
 import (
 	"fmt"
+	"go/token"
 	"reflect"
 	"strings"
 
@@ -109,6 +110,20 @@ func NewValueSet(vs []Value) (*ValueSet, error) {
 
 		// TODO(mitchellh): error on duplicate names, types
 
+		// The value is carried by a field of the struct and the tag of that
+		// field. A name or subtype that can't be read back from there would
+		// give a set that doesn't contain the value that was asked for.
+		if v.Name != "" {
+			field := strings.ToUpper(v.Name)
+			if !token.IsIdentifier(field) || !token.IsExported(field) ||
+				strings.ToLower(field) != strings.ToLower(v.Name) {
+				return nil, fmt.Errorf("value name %q can't be used in a ValueSet", v.Name)
+			}
+		}
+		if strings.Contains(v.Subtype, ",") {
+			return nil, fmt.Errorf("value subtype %q can't be used in a ValueSet", v.Subtype)
+		}
+
 		// Build our tag.
 		tags := []string{""}
 		if v.Name == "" {
@@ -117,7 +132,7 @@ func NewValueSet(vs []Value) (*ValueSet, error) {
 		if v.Subtype != "" {
 			tags = append(tags, fmt.Sprintf("subtype=%s", v.Subtype))
 		}
-		tag := reflect.StructTag(fmt.Sprintf(`argmapper:"%s"`, strings.Join(tags, ",")))
+		tag := reflect.StructTag(fmt.Sprintf("argmapper:%q", strings.Join(tags, ",")))
 
 		switch v.Kind() {
 		case ValueNamed:
